@@ -224,7 +224,15 @@ func smtName(s string) string {
 // per path (kept in the State), so the k-th request for a name on any path is the same variable,
 // which is what lets a model be replayed natively by call order.
 func freshVar(name string, k int, s Sort) *Term {
-	t := Var(fmt.Sprintf("%s!%d", smtName(name), k), s)
+	full := fmt.Sprintf("%s!%d", smtName(name), k)
+	if prev, ok := varSort[full]; ok && prev != s {
+		// The same base name is drawn with two types on different paths (one counter per name, as in
+		// the native runtime): the SMT symbol carries the sort, the replay driver strips it again.
+		full = fmt.Sprintf("%s@%s!%d", smtName(name), sortTag(s), k)
+	} else {
+		varSort[full] = s
+	}
+	t := Var(full, s)
 	if !varSeen[t.ID] {
 		varSeen[t.ID] = true
 		varOrder = append(varOrder, t)
@@ -233,6 +241,14 @@ func freshVar(name string, k int, s Sort) *Term {
 }
 
 var varSeen = map[int]bool{}
+var varSort = map[string]Sort{}
+
+func sortTag(s Sort) string {
+	if s.Kind == 0 {
+		return "b"
+	}
+	return fmt.Sprintf("w%d", s.Width)
+}
 
 // UF applies an uninterpreted function (declared on first use in each solver).
 func UF(name string, s Sort, args ...*Term) *Term {
